@@ -208,7 +208,10 @@ def r1b_regime_selectors(ctx):
                   None if ok else f"with b = 2 beta m, k = wo2 m the truth of `{label}` still depends on the mass: the same system given with a mass vector and "
                                   "with m=None (mass-normalised b, k) would be sent to different coefficient formulas",
                   key=f"C01-R1b|get_su_coef|{label}")
-    ctx.check(nsel >= 6, f"regime-selector rule bound to {nsel} predicates", fn, nontrivial=False)
+    if nsel >= 6:
+        ctx.ok(f"regime-selector rule bound to {nsel} predicates", fn)
+    else:
+        ctx.error(f"regime-selector rule bound to {nsel} predicates only (the mode-selecting comparisons of get_su_coef were not reached)", fn)
     # ---- complex path
     fn2 = ctx.src.func(SOLVEUNC, "SolveUnc._get_complex_su_coefs")
     lam, h = F.sym("lam"), F.sym("h")
@@ -781,6 +784,7 @@ def r7_subspace_typing(ctx):
         inl = {k_: v_ for k_, v_ in inl.items() if v_ is not fn and k_ != "self._ensure_index_type"}
         T = MaskTyper(params, sizes, report, passthrough={"self._ensure_index_type"}, cond={"self.rfsize": True} if qual.endswith("_chk_diag_part") else None,
                       inline=inl)
+        T.mod = getattr(fn, "_vmod", None)
         T.run(fn.body)
         if qual.endswith("_make_rb_el"):
             # what the method publishes: rb, el index the full set; _rb, _el index the non-rf set (the table the other rules rely on)
